@@ -231,6 +231,27 @@ class G(object):
             return ("ARRAY_VALUE", (it,), tuple(ch))
         return const(ty, self.const_value(ty))
 
+    def array_literal(self, ty, d):
+        """An array value whose default / assigned values may be arbitrary terms (keys are constants)."""
+        it, et = ty[1], ty[2]
+
+        def elem():
+            if self.has_consts(et) and self.pct(35):
+                return self.constant(et)
+            if is_arr(et) and self.pct(60):
+                return self.array_literal(et, d)
+            return self.term(et, min(d, 2))
+        ch = [elem()]
+        if self.has_consts(it) and not is_arr(it):
+            seen = set()
+            for _ in range(self.weighted([(4, 0), (3, 1), (2, 2), (1, 3)])):
+                k = self.constant(it)
+                if k in seen:
+                    continue
+                seen.add(k)
+                ch += [k, elem()]
+        return ("ARRAY_VALUE", (it,), tuple(ch))
+
     # ---- symbols
     def symbol(self, ty):
         return sym(symname(ty, self.cfg.sym_offset + self.i(self.cfg.nsyms)), ty)
@@ -468,10 +489,9 @@ class G(object):
         if kind == "store":
             return app("ARRAY_STORE", T(ty, d1), T(ty[1], min(d1, 2)), T(ty[2], min(d1, 2)))
         if kind == "arrval":
-            if self.has_consts(ty):
+            if self.has_consts(ty) and self.pct(40):
                 return self.constant(ty)
-            # non-constant default
-            return ("ARRAY_VALUE", (ty[1],), (T(ty[2], min(d1, 2)),))
+            return self.array_literal(ty, d1)
         raise AssertionError(kind)
 
     # ---- interpretations
